@@ -230,10 +230,24 @@ func (s *JavaIdentifierListener) EnterExpression(ctx *parser.ExpressionContext) 
 	if reflect.TypeOf(ctx.GetParent()).String() == "*parser.StatementContext" {
 		statementCtx := ctx.GetParent().(*parser.StatementContext)
 		firstChild := statementCtx.GetChild(0).(antlr.ParseTree).GetText()
-		if strings.ToLower(firstChild) == "return" {
-			currentMethod.IsReturnNull = strings.Contains(ctx.GetText(), "null")
+		// a method returns null when one of its return statements mentions the null literal, whichever it is
+		// (`return nullable;` or `return "null";` does not)
+		if strings.ToLower(firstChild) == "return" && containsNullLiteral(ctx) {
+			currentMethod.IsReturnNull = true
 		}
 	}
+}
+
+func containsNullLiteral(tree antlr.Tree) bool {
+	if literal, ok := tree.(*parser.LiteralContext); ok && literal.NULL_LITERAL() != nil {
+		return true
+	}
+	for _, child := range tree.GetChildren() {
+		if containsNullLiteral(child) {
+			return true
+		}
+	}
+	return false
 }
 
 func (s *JavaIdentifierListener) GetNodes() []core_domain.CodeDataStruct {
